@@ -89,6 +89,10 @@ func (u *URL) EnsureValid() error {
 	} else if u.Protocol == Protocol_SSH {
 		if u.Host == "" {
 			return errors.New("SSH URL with empty hostname")
+		} else if u.Host[0] == '-' {
+			return errors.New("SSH URL with hostname that could be read as an option")
+		} else if u.User != "" && u.User[0] == '-' {
+			return errors.New("SSH URL with username that could be read as an option")
 		} else if u.Port > math.MaxUint16 {
 			return errors.New("SSH URL with invalid port")
 		} else if len(u.Environment) != 0 {
@@ -102,6 +106,8 @@ func (u *URL) EnsureValid() error {
 		// environment variables the same as unspecified ones.
 		if u.Host == "" {
 			return errors.New("Docker URL with empty container identifier")
+		} else if u.Host[0] == '-' {
+			return errors.New("Docker URL with container identifier that could be read as an option")
 		} else if u.Port != 0 {
 			return errors.New("Docker URL with non-zero port")
 		}
